@@ -998,6 +998,8 @@ func init() {
 			return nil
 		},
 		"slices.Sort[[]string string]": nil,
+		"sort.Slice":                   sortSliceExt,
+		"sort.SliceStable":             sortSliceExt,
 		// --- encoding/binary ---
 		"(encoding/binary.bigEndian).PutUint16": func(fr *frame, a []value) value {
 			b := a[1].([]value)
@@ -1039,4 +1041,34 @@ func sortStrings(ss []string) {
 			ss[j], ss[j-1] = ss[j-1], ss[j]
 		}
 	}
+}
+
+// sortSliceExt: sort.Slice / sort.SliceStable on an interpreter slice with
+// the target program's less function (stable insertion sort; a stable sort
+// is one of the orders sort.Slice may produce).
+func sortSliceExt(fr *frame, a []value) value {
+	it, _ := a[0].(iface)
+	xs, ok := it.v.([]value)
+	if !ok {
+		if it.v == nil {
+			return nil
+		}
+		panic(unsupported("sort.Slice on %T", it.v))
+	}
+	less := func(i, j int) bool {
+		r := call(fr.i, nil, 0, a[1], []value{i, j})
+		switch b := r.(type) {
+		case bool:
+			return b
+		case symB:
+			return fr.i.ex.decide(b.t, "sort.Slice less")
+		}
+		panic(unsupported("sort.Slice less returned %T", r))
+	}
+	for i := 1; i < len(xs); i++ {
+		for j := i; j > 0 && less(j, j-1); j-- {
+			xs[j], xs[j-1] = xs[j-1], xs[j]
+		}
+	}
+	return nil
 }
